@@ -156,3 +156,9 @@ Proof.
   revert l2; induction l1 as [|a l1 IH]; intros [|b l2]; cbn [list_eqb]; try (split; congruence).
   rewrite andb_true_iff, IH, N.eqb_eq. split; [intros [E1 E2]; subst; reflexivity|intros E; inversion E; auto].
 Qed.
+
+Lemma last_last_two {A} (l : list A) (x y d : A) : last (l ++ [x; y]) d = y.
+Proof. change [x; y] with ([x] ++ [y]). rewrite app_assoc. apply last_last. Qed.
+
+Lemma Bytes_cons a l : Bytes (a :: l) <-> a < 256 /\ Bytes l.
+Proof. unfold Bytes. split; [intros H; inversion H; auto|intros [? ?]; constructor; auto]. Qed.
